@@ -46,6 +46,8 @@ def make_cases(tier, rng):
     for h in (["sha256"] if tier == "quick" else list(HLEN)):
         for cl in ["exact", "other"]:
             add(hash=h, **{"class": cl}, pos=0, file_size=rng.choice([1, 5000]), file_seed=rng.randint(1, 99999), launch="relpath")
+            # ... and a relative path with a working directory set for the command (os/exec resolves it there)
+            add(hash=h, **{"class": cl}, pos=0, file_size=rng.choice([1, 5000]), file_seed=rng.randint(1, 99999), launch="reldir")
     # histories on one SecureConfig value
     for _ in range(6 if tier == "quick" else 40):
         add(hash=rng.choice(list(HLEN)), **{"class": "exact"}, pos=0, file_size=rng.choice([10, 5000]), file_seed=rng.randint(1, 99999),
